@@ -22,7 +22,8 @@ The independent oracle is written from the property statement (it does not know 
   * twin: the same history without the designated failing reads (each replaced by the successful nested reads that
     happened inside it - those are reads of their own and are remembered) must give the same outcomes for all
     other operations and the same final state.  Claimed only while no implementation branched on `cycle=True`
-    and the recursion limit was not reached (the explicit hypothesis of theorem `no_residue`).
+    and no `has_value` guard met the recursion limit (the explicit hypotheses of the theorems `no_residue` and
+    `no_residue_coherent`; outside them the statement is false of the code: `no_residue_full_false`).
 """
 import math
 
@@ -639,11 +640,19 @@ class World:
                         self.problems.append(("has-value-wrong", where + " gave %r although no value is available" % (out,)))
                 elif exp[0] == "exc-type":          # ValueError must come through hasattr
                     if not (out[0] == "exc" and type(out[1]) is exp[1]):
-                        self.problems.append(("nonfinite-result-accepted", where + ": non-finite result, has_value gave %r" % (out,)))
+                        if out == ("bool", True):        # the non-finite result was accepted (and remembered)
+                            mixed = (isinstance(exp[2], (list, tuple)) and has_non_numeric_leaf(exp[2])) or \
+                                (type(exp[2]).__name__ == "ndarray" and exp[2].dtype.kind == "O")
+                            key = "nonfinite-in-non-numeric-sequence" if mixed else "nonfinite-result-accepted"
+                        else:
+                            key = "has-value-swallows-error"
+                        self.problems.append((key, where + ": the result %s contains a non-finite number (ValueError "
+                                              "expected), has_value gave %r" % (pytok(exp[2])[:80], out)))
                 elif exp[0] == "exc-is":
                     if not (out[0] == "exc" and out[1] is exp[1]):
                         if not (isinstance(exp[1], AttributeError) and out == ("bool", False)):
-                            self.problems.append(("exception-type-changed", where + ": implementation raised %s, has_value gave %r"
+                            self.problems.append(("has-value-swallows-error" if out[0] == "bool" else "exception-type-changed",
+                                                  where + ": implementation raised %s, has_value gave %r"
                                                   % (type(exp[1]).__name__, out)))
             else:
                 if exp[0] == "val":
@@ -871,15 +880,19 @@ def oracle_case(prog, ops, faults):
     probs = list(resA["problems"])
     info = {"hit": resA["world"].hit, "saw_cycle": resA["world"].saw_cycle, "twin": "none"}
     failing = [n for n in faults if resA["nodes"][n] is not None and resA["nodes"][n].ok is False]
+    guards = any(body_uses(b, "has") for (_, _, b, _, _) in prog["fns"]) or bool(prog.get("wrappers"))
+
+    def outside(w):        # outside the hypothesis under which the twin equivalence is claimed
+        return w.saw_cycle or (w.hit and guards)
     if failing:
-        if resA["world"].hit or resA["world"].saw_cycle:
+        if outside(resA["world"]):
             info["twin"] = "skipped-hypothesis"
         else:
             tops, keep = twin_ops(ops, set(failing), resA)
             resB = run_world(prog, tops)
             if resB is None:
                 info["twin"] = "skipped-budget"
-            elif resB["world"].hit or resB["world"].saw_cycle:
+            elif outside(resB["world"]):
                 info["twin"] = "skipped-hypothesis"
             else:
                 info["twin"] = "compared"
@@ -959,17 +972,20 @@ def gen_body(rng, h, prog, style, budget):
         return gen_terminal(rng, style)
 
     def target():
-        if style == "runaway" or rng.random() < 0.07:
+        if style == "runaway" or rng.random() < 0.04:
             return rng.randrange(nh)                       # may close a cycle
-        return rng.randrange(h + 1, nh) if h + 1 < nh else rng.randrange(nh)
+        return rng.randrange(h + 1, nh) if h + 1 < nh else None
 
     def ref():
         return None if rng.random() < 0.6 or ni == 1 else rng.randrange(ni)
     r = rng.random()
+    t = target()
+    if t is None:
+        return gen_terminal(rng, style)
     if r < 0.55:
-        return ("read", ref(), target(), gen_body(rng, h, prog, style, budget - 1))
+        return ("read", ref(), t, gen_body(rng, h, prog, style, budget - 1))
     if r < 0.75:
-        return ("has", ref(), target(), gen_body(rng, h, prog, style, budget - 1), gen_body(rng, h, prog, style, budget - 2))
+        return ("has", ref(), t, gen_body(rng, h, prog, style, budget - 1), gen_body(rng, h, prog, style, budget - 2))
     if r < 0.90:
         return ("cyc", gen_terminal(rng, style) if rng.random() < 0.7 else gen_body(rng, h, prog, style, budget - 2),
                 gen_body(rng, h, prog, style, budget - 1))
@@ -996,6 +1012,39 @@ def gen_prog(rng, style):
             tier = rng.choice(["", "", "", "first", "last"])
             prog["fns"].append((f, h, body, takes_cycle, tier))
             f += 1
+    return prog
+
+
+def gen_deep(rng):
+    """a chain of reads through all six hooks (across instances) with the failure at a random position of the nesting"""
+    nh, ni = 6, rng.choice([1, 2, 3])
+    prog = {"hooks": nh, "insts": ni, "fns": []}
+    pos = rng.randrange(nh)
+    f = 0
+    for h in range(nh):
+        ref = None if rng.random() < 0.5 or ni == 1 else rng.randrange(ni)
+        if h == pos:
+            body = rng.choice([("raise", rng.choice(EXC_NAMES)), ("ret", ("N",)), ("ret", ("F", rng.choice(["nan", "inf"]))),
+                               ("ret", ("L", [("I", 1), ("A", [0, "ninf"])])), ("ret", ("U", [("S", 1), ("F", "nan")])),
+                               ("raise", "Other5"), ("raise", "Other3")])
+            if h + 1 < nh and rng.random() < 0.5:          # fails only after a nested read succeeded
+                body = ("read", ref, h + 1, body)
+        elif h + 1 < nh and h < pos:
+            r = rng.random()
+            inner = ("acc", rng.randrange(3)) if r < 0.7 else ("ret", ("I", rng.randrange(1, 9)))
+            if rng.random() < 0.2:
+                body = ("has", ref, h + 1, ("read", ref, h + 1, inner), ("acc", 50))
+            else:
+                body = ("read", ref, h + 1, inner)
+        else:
+            body = rng.choice([("acc", rng.randrange(1, 5)), ("ret", ("I", rng.randrange(1, 9))), ("ret", gen_val(rng, 0, 0.0, False))])
+        if rng.random() < 0.25:                            # an implementation without a value is tried first
+            prog["fns"].append((f, h, rng.choice([("ret", ("N",)), ("raise", "StopIteration"), ("cyc", ("ret", ("I", 77)), ("ret", ("N",)))]),
+                                False, ""))
+            prog["fns"][-1] = prog["fns"][-1][:3] + (body_uses(prog["fns"][-1][2], "cyc"), "first")
+            f += 1
+        prog["fns"].append((f, h, body, rng.random() < 0.3, ""))
+        f += 1
     return prog
 
 
@@ -1099,7 +1148,7 @@ CORPUS = [
     # no implementation at all / all None
     ("no-value", _p(2, 1, [(0, 1, ("ret", ("N",))), (1, 1, ("ret", ("N",)))]), [("read", 0, 0), ("read", 0, 1), ("has", 0, 1)], [0, 1]),
     # unguarded mutual recursion: AttributeError, nothing cached, nothing marked
-    ("runaway", _p(2, 1, [(0, 0, ("read", None, 1, ("acc", 1))), (1, 1, ("read", None, 0, ("acc", 1)))]),
+    ("runaway-plain", _p(2, 1, [(0, 0, ("read", None, 1, ("acc", 1))), (1, 1, ("read", None, 0, ("acc", 1)))]),
      [("read", 0, 0), ("has", 0, 1), ("set", 0, 1, I(5)), ("read", 0, 0)], [0, 1]),
     # guarded mutual recursion: the value depends on the depth at which the limit strikes (not compared)
     ("runaway-guarded", _p(2, 1, [(0, 0, ("has", None, 1, ("read", None, 1, ("acc", 1)), ("ret", I(7)))), (1, 1, ("read", None, 0, ("acc", 1)))]),
@@ -1246,7 +1295,7 @@ def run(ctx):
     import logging
     logging.getLogger("pyroll").setLevel(logging.ERROR)
     rng = ctx.rng
-    n = ctx.budget(420, 9000)
+    n = ctx.budget(900, 12000)
     cases = [(name, prog, ops, faults) for (name, prog, ops, faults) in CORPUS]
     for k in range(n):
         r = rng.random()
@@ -1264,14 +1313,18 @@ def run(ctx):
             prog, ops, faults = gen_wrappers(rng)
             cases.append(("wrappers", prog, ops, faults))
             continue
-        prog = gen_prog(rng, style)
+        if style == "nested" and rng.random() < 0.25:
+            style = "deep"
+            prog = gen_deep(rng)
+        else:
+            prog = gen_prog(rng, style)
         ops, faults = gen_ops(rng, prog, rng.randrange(2, 9), 2 if style == "runaway" else None)
         cases.append((style, prog, ops, faults))
 
     lean_lines, pending = [], []
     seen_keys = set()
     for (name, prog, ops, faults) in cases:
-        stream = name if name in ("nested", "values", "runaway", "exotic", "wrappers") else "corpus"
+        stream = name if name in ("nested", "deep", "values", "runaway", "exotic", "wrappers") else "corpus"
         resA, probs, info = oracle_case(prog, ops, faults)
         if resA is None:
             ctx.count("discarded:step-budget")
@@ -1296,7 +1349,7 @@ def run(ctx):
         for nd in (_all_nodes(resA) if not w.hit else []):
             if nd.ok is False and nd.depth > 0:
                 ctx.count("failed-at-depth:" + (str(nd.depth) if nd.depth <= 6 else "7+"))
-        if len(ctx.samples) < 3 and stream == "nested" and n_failed and w.nested_calls:
+        if len(ctx.samples) < 3 and stream in ("nested", "deep") and n_failed and w.nested_calls:
             ctx.sample({"implementations": prog_lines(prog, w), "history": [optok(o) for o in ops], "outcomes": resA["outs"]})
         if probs:
             done = set()
